@@ -53,15 +53,23 @@ def build(rnd):
     case["seg"] = c02.seg_plan(rnd, case) if rnd.bool() else None
     if rnd.int(0, 3) == 0:
         case["edits"] = []
+    case["early"] = [rnd.int(0, 4) == 0 for _ in range(n)]
+    case["opts"] = rnd.pick([{}, {}, {}, {"body_size_limit": "10"}, {"stream_large_bodies": "5"},
+                             {"body_size_limit": "40", "stream_large_bodies": "3"}, {"store_streamed_bodies": True, "stream_large_bodies": "1"}])
     return case
 
 
 def check_case(case, ctx):
+    if (case.get("opts") or {}).get("stream_large_bodies"):
+        # documented limitation (NotImplementedError "Can't set a response and enable streaming at the same time")
+        case["policy"] = [p for p in case.get("policy") or [] if not (p[2] == "resp" and p[1] == "requestheaders")]
     o = run_http1(case)
     if o.crashed is not None:
         ctx.crash(o.crashed, "layer-crash")
         return
     streamed_req = {p[0] for p in case.get("policy") or [] if p[2] == "stream" and p[1] == "requestheaders"}
+    if (case.get("opts") or {}).get("stream_large_bodies"):
+        streamed_req = set(range(len(o.flows)))
     fault = case.get("fault")
     pol = tuple(sorted((p[1], p[2]) for p in case.get("policy") or []))
     hooks_at = tuple(tuple(r.hooks) for r in o.flows)
